@@ -1,7 +1,12 @@
 package props
 
 import (
+	"encoding/json"
 	"fmt"
+	"strings"
+
+	"verif/internal/drive"
+	"verif/internal/perturb"
 
 	"verif/internal/fw"
 	"verif/internal/gen"
@@ -217,6 +222,14 @@ func c01Cases(tier string, seed uint64) []fw.Case {
 		progs = append(progs, randomProgs(rng, 120, 3, 14)...)
 		cs = c01CasesFor(progs, rng, 3, 5, 2, nil)
 	}
+	// instances sharing one definitions value
+	twinProgs := append(forcedPairs(fw.NewRng(seed, "C01")), forcedData()...)
+	ntwin := 40
+	if tier == "thorough" {
+		ntwin = 400
+	}
+	twinProgs = append(twinProgs, randomProgs(fw.NewRng(seed, "C01twin"), ntwin, 3, 14)...)
+	cs = append(cs, c01TwinCases(twinProgs, rng)...)
 	// deterministic schedule perturbation: on the forced programs one goroutine falls behind at the n-th hit
 	// of an instrumentation site (stepwise with the first answer order, and one storm run)
 	nths := []int{1, 3}
@@ -253,6 +266,116 @@ func c01Cases(tier string, seed uint64) []fw.Case {
 	return fw.Number(cs)
 }
 
+// c01Twin: instances that share one parsed definitions value. A third instance is started first and stays
+// parked at its first tasks for the whole case; then instance A runs stepwise against its reference, then
+// instance B with the opposite variable assignment (other branches). State kept on the definitions model,
+// on package level or in caches keyed by diagram elements would make them influence each other.
+type c01Twin struct {
+	Name string    `json:"name"`
+	A    step.Case `json:"a"`
+	B    step.Case `json:"b"`
+}
+
+func c01TwinCases(progs []c01Prog, rng *fw.Rng) []fw.Case {
+	var cs []fw.Case
+	for _, p := range progs {
+		g := gen.Lower("p", p.AST)
+		va := zeroData(assignments(p.NV, 1, rng)[0], p.AST)
+		vb := map[string]int64{}
+		for k, x := range va {
+			vb[k] = x
+			if k[0] == 'v' {
+				vb[k] = 1 - x
+			}
+		}
+		t := c01Twin{Name: p.Name + "/twin"}
+		ok := true
+		for i, vars := range []map[string]int64{va, vb} {
+			sc := step.Case{Name: fmt.Sprintf("%s/twin%d", p.Name, i), G: g, Vars: vars, Family: p.Family, Lenient: hasOr(g), Waiters: 1}
+			orders, _ := step.Orders(&sc, 1, rng)
+			if len(orders) == 0 {
+				ok = false
+				break
+			}
+			sc.Order = orders[0]
+			if i == 0 {
+				t.A = sc
+			} else {
+				t.B = sc
+			}
+		}
+		if ok {
+			cs = append(cs, fw.MkCase("twin", &t))
+		}
+	}
+	return cs
+}
+
+func c01RunTwin(c fw.Case, env *fw.Env) *fw.V {
+	v := fw.NewV(c)
+	var t c01Twin
+	if err := json.Unmarshal(c.Desc, &t); err != nil {
+		v.Inconclusive("descriptor", "%v", err)
+		return v
+	}
+	defs, _, err := step.Parse(t.A.G)
+	if err != nil {
+		v.Inconclusive("parse", "%v", err)
+		return v
+	}
+	perturb.Off()
+	// the bystander: same definitions value, alive (parked at its first tasks) during both runs
+	o := drive.Opts{}
+	o.Vars = map[string]any{}
+	for k, x := range t.A.Vars {
+		o.Vars[k] = int(x)
+	}
+	by, err := drive.New(env.Label, defs, o)
+	if err != nil {
+		v.Violate("new-process-error", "error", "%v", err)
+		return v
+	}
+	defer by.Cancel()
+	if err := by.Start(); err != nil {
+		v.Violate("start-error", "error", "%v", err)
+		return v
+	}
+	by.Quiesce(step.Watchdog)
+	for i, sc := range []*step.Case{&t.A, &t.B} {
+		sc.Defs = defs
+		r := step.RunStepwise("C01", sc, env, v)
+		v.Add("twin-runs", 1)
+		if r != nil {
+			v.Add("steps", r.Steps)
+		}
+		if v.Violated() {
+			for k := range v.Findings {
+				f := &v.Findings[k]
+				if f.Status == fw.Violation && !strings.HasPrefix(f.Msg, "[instance") {
+					f.Msg = fmt.Sprintf("[instance %d of 3 sharing one definitions value] %s", i+1, f.Msg)
+				}
+			}
+			break
+		}
+	}
+	// the known divergence of nested inclusive gateways is one finding, as in the single-instance runs
+	if t.A.Family != "" {
+		for i := range v.Findings {
+			f := &v.Findings[i]
+			if f.Status == fw.Violation {
+				if f.Class != t.A.Family {
+					f.Class = t.A.Family
+				}
+				if strings.HasPrefix(t.A.Family, "with-inclusive") && divergence(f.Rule) {
+					f.Rule = "diverges-from-reference"
+				}
+			}
+		}
+	}
+	v.Nontrivial = true
+	return v
+}
+
 // delaySites: the instrumentation sites a single-instance program can reach
 var delaySites = []string{"tracer.bcast", "tracer.send", "tracer.sub", "tracer.unsub", "flow.loop", "flow.action", "flow.fork",
 	"gw.parallel.next", "gw.exclusive.next", "gw.exclusive.report", "gw.inclusive.next", "gw.inclusive.tracker", "gw.inclusive.activity",
@@ -263,9 +386,12 @@ func init() {
 		ID:    "C01",
 		Cases: c01Cases,
 		Run: func(c fw.Case, env *fw.Env) *fw.V {
+			if c.Kind == "twin" {
+				return c01RunTwin(c, env)
+			}
 			return runStep("C01", c, env, nil)
 		},
-		Rule: "block-structured programs (every legal ordered nesting pair of {xor,and,or,loop,conditional-flow task,sub-process} + data-flow programs in which a condition reads what a task on another, already joined token wrote (sub-process, nested, parallel block, loop, exclusive branch, conditional flows) + PRNG programs, depth<=3/4, half of them with task-written data variables read by later conditions) x variable assignments steering the conditions x answer orders (all if <=limit else PRNG-drawn) run stepwise against the reference token game at every quiescent point, plus storm runs; the forced programs again with a deterministic schedule perturbation (the goroutine making the n-th hit of each of 21 instrumentation sites pauses 300 us); non-trivial = >=1 gateway/conditional flow and (>=2 requests pending at once or a condition decided a route); distinct = descriptor hash",
+		Rule: "block-structured programs (every legal ordered nesting pair of {xor,and,or,loop,conditional-flow task,sub-process} + data-flow programs in which a condition reads what a task on another, already joined token wrote (sub-process, nested, parallel block, loop, exclusive branch, conditional flows) + PRNG programs, depth<=3/4, half of them with task-written data variables read by later conditions) x variable assignments steering the conditions x answer orders (all if <=limit else PRNG-drawn) run stepwise against the reference token game at every quiescent point, plus storm runs; the forced programs again with a deterministic schedule perturbation (the goroutine making the n-th hit of each of 21 instrumentation sites pauses 300 us); twin runs: three instances created from ONE parsed definitions value (a bystander parked at its first tasks, then two stepwise runs with opposite variable assignments), each against its own reference; non-trivial = >=1 gateway/conditional flow and (>=2 requests pending at once or a condition decided a route); distinct = descriptor hash",
 		Assumptions: []string{"programs are block-structured and data-race-free by construction (conditions read variables no concurrently live branch writes)", "reference token game is the oracle"},
 	})
 }
